@@ -384,7 +384,69 @@ func histNames(hist []int, alpha []c14msg) string {
 	return "[" + strings.Join(s, " -> ") + "]"
 }
 
+// c14Texts: single-text variations (flag combinations, link states, slot range shapes, column counts) of one node
+// line inside an otherwise valid description; each is judged as a history of length 1 and 2 (after the base text).
+func c14Texts() []c14msg {
+	var out []c14msg
+	flags := []string{"master", "myself,master", "slave", "myself,slave", "master,fail", "slave,fail", "master,handshake", "slave,handshake", "master,noaddr", "noflags"}
+	links := []string{"connected", "disconnected"}
+	slotShapes := [][]string{{"10923-16383"}, {"10923-12000", "12002-16383", "12001"}, {"10923-16383", "[11000->-bbb]"}, {}, {"10923-16383", "[93-<-aaa]", "[94-<-aaa]"}}
+	for _, fl := range flags {
+		for _, lk := range links {
+			for si, sl := range slotShapes {
+				master := "-"
+				if strings.Contains(fl, "slave") {
+					master = "aaa"
+					if si > 0 {
+						continue
+					}
+				}
+				// the varied node replaces ccc; a spare master keeps the slot range owned when ccc is unusable
+				lines := []string{
+					line("aaa", nA, "master", "-", "", "0-5460"),
+					line("bbb", nB, "master", "-", "", "5461-10922"),
+					line("xxx", nC, fl, master, lk, sl...),
+					line("ddd", nD, "master", "-", "", "16000-16100"),
+					line("a1", AddrA1, "slave", "aaa", ""),
+				}
+				out = append(out, c14msg{name: fmt.Sprintf("text[%s/%s/slots%d]", fl, lk, si), raw: bulkNodes(strings.Join(lines, "\n")), valid: true})
+			}
+		}
+	}
+	// column counts and odd lines
+	out = append(out,
+		c14msg{name: "text[extra-blank-lines]", raw: bulkNodes("\n" + c14Base() + "\n\n"), valid: true},
+		c14msg{name: "text[9th-column-garbage-on-slave]", raw: bulkNodes(c14Base() + "\n" + line("z1", "10.0.7.1:7000", "slave", "ccc", "") + " trailing"), valid: true},
+		c14msg{name: "text[addr-without-cport]", raw: bulkNodes(strings.ReplaceAll(c14Base(), "@17000", "")), valid: true},
+		c14msg{name: "text[hostname-addr]", raw: bulkNodes(c14Base() + "\n" + "h1 :7000@17000 slave aaa 0 0 1 connected"), valid: true},
+	)
+	return out
+}
+
 func c14Seq(tier string, shard, n int, deadline time.Time, res *Result) {
+	// generated single texts, as histories [text] and [base, text]
+	{
+		texts := c14Texts()
+		base := c14Alphabet()[0]
+		for i, t := range texts {
+			if i%n != shard {
+				continue
+			}
+			for _, h := range [][]c14msg{{t}, {base, t}, {t, base}} {
+				alpha2 := h
+				idx := make([]int, len(h))
+				for k := range h {
+					idx[k] = k
+				}
+				sig, msg, _ := c14Run(idx, alpha2)
+				res.Execs++
+				res.Transitions += int64(len(h))
+				if sig != "" {
+					addFound(res, "texts", sig, msg, "text:"+t.name)
+				}
+			}
+		}
+	}
 	alpha := c14Alphabet()
 	depth := 3
 	if tier == "thorough" {
@@ -610,8 +672,8 @@ func c18Seq(tier string, shard, n int, deadline time.Time, res *Result) {
 		res.Outcomes = append(res.Outcomes, k)
 		res.Nontrivial = append(res.Nontrivial, k)
 	}
-	if tier == "thorough" && shard == 0 {
-		c18Watcher(res)
+	if shard == 0 {
+		c18Watcher(res) // the real fsnotify watcher: in-place and rename edits (milliseconds when it converges)
 	}
 }
 
@@ -775,11 +837,11 @@ func init() {
 		return fmt.Sprintf("history %s\nverdict: %s %s", c18Describe(h), sig, msg), sig != ""
 	}
 	register(&Check{ID: "C14", Level: "model_checking",
-		Rule: "breadth-first search over histories of probe replies pushed through the REAL refresh goroutine (loopClusterNodes) and the real ticker: alphabet of 19 messages = 11 valid texts (base, failover with failed master, slot range moved, range split with migration markers, node added, replica removed, replica re-parented, replica disconnected, handshake/noaddr/failed extra nodes, new replicas whose INFO says loading / link down / dial error / ok, unclaimed range) + 8 unusable replies (nil bulk, two error replies, status, oversize > 163840, two usable nodes, 7-column lines, garbage text); depth 3 (thorough 4) with de-duplication on the canonical dump of the real refresh state; a barrier message makes 'all earlier replies processed' deterministic; oracle: after two ticker rounds of virtual time the slot->(master, replica set) map for ALL 16384 slots and the pool set/roles equal the reference built from the LAST VALID text, and the goroutine is still alive; states = distinct real refresh states reached; transitions = messages delivered",
+		Rule: "breadth-first search over histories of probe replies pushed through the REAL refresh goroutine (loopClusterNodes) and the real ticker: alphabet of 19 messages = 11 valid texts (base, failover with failed master, slot range moved, range split with migration markers, node added, replica removed, replica re-parented, replica disconnected, handshake/noaddr/failed extra nodes, new replicas whose INFO says loading / link down / dial error / ok, unclaimed range) + 8 unusable replies (nil bulk, two error replies, status, oversize > 163840, two usable nodes, 7-column lines, garbage text); depth 3 (thorough 4) with de-duplication on the canonical dump of the real refresh state; additionally ~100 generated single texts (one node line varied over 10 flag combinations x 2 link states x 5 slot-range shapes incl. migration markers and a master without slots, blank lines, missing cluster port, address without host) as histories [text], [base,text], [text,base]; an end-to-end family runs the whole path ticker -> probe -> reply -> channel -> real refresh goroutine -> ticker with client traffic (time advances only when the network is idle); a barrier message makes 'all earlier replies processed' deterministic; oracle: after two ticker rounds of virtual time the slot->(master, replica set) map for ALL 16384 slots and the pool set/roles equal the reference built from the LAST VALID text, and the goroutine is still alive; states = distinct real refresh states reached; transitions = messages delivered",
 		Seq: c14Seq, Scenarios: c14E2EScenarios, BudgetQuick: 100, BudgetThorough: 1500,
 		Assumptions: []string{"'within a few seconds' = within two ticker rounds of virtual time", "the INFO probe of newly discovered nodes is answered by a stub; the health monitor is not run", "memory-model races between the refresh goroutine and the loop are outside the technique (the barrier orders them)"}})
 	register(&Check{ID: "C18", Level: "model_checking",
-		Rule: "every history of 1..2 (thorough 1..3) successive whitelist file contents out of the 16 states {enable on/off} x subsets of {127.0.0.1,.2,.3}; each content is written to a scratch file and loaded through the real parseAuthIp exactly as the watcher does; then four clients (three listed candidates + one foreign address) connect through the real accept path and pipeline two requests; oracle: admitted set = set in the final file (everyone when disabled), rejected clients are closed with zero bytes and nothing of theirs reaches a backend; thorough adds the real fsnotify watcher with in-place and rename edits (5 s convergence window); states = histories, transitions = file loads",
+		Rule: "every history of 1..2 (thorough 1..3) successive whitelist file contents out of the 16 states {enable on/off} x subsets of {127.0.0.1,.2,.3}; each content is written to a scratch file and loaded through the real parseAuthIp exactly as the watcher does; then four clients (three listed candidates + one foreign address) connect through the real accept path and pipeline two requests; oracle: admitted set = set in the final file (everyone when disabled), rejected clients are closed with zero bytes and nothing of theirs reaches a backend; plus the real fsnotify watcher (LoopIPWhiteList on a scratch directory) driven through 7 edits, in place and by rename, with a 5 s convergence window; states = histories, transitions = file loads",
 		Seq: c18Seq, BudgetQuick: 100, BudgetThorough: 1500,
-		Assumptions: []string{"quick tier calls the reload function directly; the fsnotify path is exercised in the thorough tier"}})
+		Assumptions: []string{"histories call the reload function directly (deterministic); the fsnotify path is exercised by one fixed 7-edit sequence in real time"}})
 }
